@@ -76,6 +76,14 @@ func peval(v ssa.Value, env PEnv, depth int) (constant.Value, bool) {
 				return nil, false
 			}
 			return constant.BinaryOp(a, x.Op, b), true
+		case token.QUO, token.REM:
+			if a.Kind() != constant.Int || b.Kind() != constant.Int || constant.Sign(b) == 0 {
+				return nil, false
+			}
+			if x.Op == token.QUO {
+				return constant.BinaryOp(a, token.QUO_ASSIGN, b), true // truncated integer division
+			}
+			return constant.BinaryOp(a, token.REM, b), true
 		case token.SHL, token.SHR:
 			if a.Kind() != constant.Int || b.Kind() != constant.Int {
 				return nil, false
@@ -103,6 +111,31 @@ func peval(v ssa.Value, env PEnv, depth int) (constant.Value, bool) {
 							continue
 						}
 					}
+				}
+			}
+			// an edge whose source block lies behind a branch decided the other way is infeasible too
+			// (looked up at most three dominators, for the boolean phis of && / || chains only)
+			if i < len(blk.Preds) && isBoolType(x.Type()) && depth < 6 {
+				dead := false
+				cur := blk.Preds[i]
+				for lvl := 0; lvl < 3 && !dead; lvl++ {
+					d := cur.Idom()
+					if d == nil {
+						break
+					}
+					if iff, ok := d.Instrs[len(d.Instrs)-1].(*ssa.If); ok && len(d.Succs) == 2 && d.Succs[0] != d.Succs[1] {
+						for si, sc := range d.Succs {
+							if sc == cur && len(cur.Preds) == 1 {
+								if c, ok := peval(iff.Cond, env, depth+8); ok && c.Kind() == constant.Bool && constant.BoolVal(c) != (si == 0) {
+									dead = true
+								}
+							}
+						}
+					}
+					cur = d
+				}
+				if dead {
+					continue
 				}
 			}
 			c, ok := peval(e, env, depth+1)
